@@ -40,6 +40,11 @@ def run(tier, seed, replay=None):
     if replay:
         with open(replay) as f:
             r = json.load(f)["case"]
+        if "phases_case" in r:
+            import coupling
+            coupling.stage(chk, tier, seed, work, rnd)          # the whole stage: it is short and deterministic for a seed
+            shutil.rmtree(work, ignore_errors=True)
+            return chk.finish()
         if "coupling_case" in r:
             import coupling
             coupling.stage(chk, tier, seed, work, rnd, only=r["coupling_case"])
